@@ -2,7 +2,7 @@ SPEC = dict(
     harness="verif_c23",
     model="C23",
     uses_hashes=True,
-    rule="random block histories (tiny parameters: 3000 histories of 12-61 blocks in quick, 40000 in thorough; full parameters E=600: 4 / 60 "
+    rule="random block histories (tiny parameters: 2000 histories of 12-61 blocks in quick, 40000 in thorough; full parameters E=600: 4 / 60 "
          "histories) over several epochs through safrole.OuterUsedSafrole on the blockchain singleton: ticket extrinsics of random size "
          "(0 .. V+2), sorted / swapped / shuffled, duplicated identifiers, attempts N, N+1, 255, 256, 2^32(+k), 2^64-1, invalid proofs, "
          "clashes with tickets of the same epoch, submissions in the epoch tail, non-increasing slots, epoch changes with full / short "
